@@ -252,9 +252,7 @@ func init() {
 			}}
 		},
 		"encoding/hex.EncodeToString": func(e *Exec, st *State, f *ssa.Function, args []Value, pos token.Pos) Value {
-			c := e.C
-			in := e.seqTerm(st, e.sliceSeq(st, args[0].(*SliceV)))
-			return Scalar{T: c.App("hex_encode", sortStr, in), Typ: types.Typ[types.String]}
+			return Scalar{T: e.hexEncode(st, e.sliceSeq(st, args[0].(*SliceV))), Typ: types.Typ[types.String]}
 		},
 	}
 }
